@@ -330,6 +330,20 @@ int main(void) {
                 ZSTD_CCtx_reset(cctx, ZSTD_reset_session_only); { size_t r2 = ZSTD_compress2(cctx, exact, cap, in, n); if (ZSTD_isError(r) != ZSTD_isError(r2) || (!ZSTD_isError(r) && r != r2)) over |= 2; } }
             if (ZSTD_isError(r)) printf("err %s%s\n", zv_errclass(r), over ? " OVERRUN" : ""); else printf("ok %zu%s%s\n", r, r > cap ? " RETURNED-MORE-THAN-CAPACITY" : "", over ? " OVERRUN" : "");
             free(in); free(out); free(exact);
+        } else if (!strcmp(op, "ccaps")) {
+            /* ccaps <id=val,...|-> <cap> <hex-src> : ZSTD_compressSequences (sequences from ZSTD_generateSequences on the same input, explicit block
+             * delimiters) into an exact-size heap buffer of <cap> bytes: ASan redzones on both sides; a result above the capacity is reported */
+            char* ps = strtok(NULL, " "); size_t cap = (size_t)strtoull(strtok(NULL, " "), NULL, 10), n; unsigned char* in = zv_unhex(strtok(NULL, " "), &n);
+            size_t r = 0, ns = 0; char* save = NULL; char* kv; char pcopy[512]; size_t scap = ZSTD_sequenceBound(n) + 16; ZSTD_Sequence* sv = (ZSTD_Sequence*)malloc(scap * sizeof *sv);
+            unsigned char* exact = (unsigned char*)malloc(cap ? cap : 1);
+            strncpy(pcopy, ps, sizeof pcopy - 1); pcopy[sizeof pcopy - 1] = 0;
+            ZSTD_CCtx_reset(cctx, ZSTD_reset_session_and_parameters);
+            for (kv = strtok_r(pcopy, ",", &save); kv && !ZSTD_isError(r); kv = strtok_r(NULL, ",", &save)) { int id, val; if (sscanf(kv, "%d=%d", &id, &val) == 2) r = ZSTD_CCtx_setParameter(cctx, (ZSTD_cParameter)id, val); }
+            if (!ZSTD_isError(r)) { ns = ZSTD_generateSequences(cctx, sv, scap, in, n); if (ZSTD_isError(ns)) r = ns; }
+            if (!ZSTD_isError(r)) { ZSTD_CCtx_reset(cctx, ZSTD_reset_session_only); r = ZSTD_CCtx_setParameter(cctx, ZSTD_c_blockDelimiters, ZSTD_sf_explicitBlockDelimiters); }
+            if (!ZSTD_isError(r)) r = ZSTD_compressSequences(cctx, exact, cap, sv, ns, in, n);
+            if (ZSTD_isError(r)) printf("err %s\n", zv_errclass(r)); else printf("ok %zu%s\n", r, r > cap ? " RETURNED-MORE-THAN-CAPACITY" : "");
+            free(in); free(sv); free(exact);
         } else if (!strcmp(op, "dcap")) {
             /* dcap <cap> <hex> : ZSTD_decompress into exact-size buffer + canary copy */
             size_t cap = (size_t)strtoull(strtok(NULL, " "), NULL, 10), n, i; unsigned char* in = zv_unhex(strtok(NULL, " "), &n);
